@@ -386,6 +386,7 @@ func streamC12(r *hx.Rng) {
 				o.n = extNums[0]
 			}
 			d := descFor(o.fl, o.n)
+			hx.Inflight(fmt.Sprintf("S EXT %s %s %s", rc.rt, strings.Join(toks, " "), o.token()))
 			if o.typ == "get" && o.fl == "v2" && kindOf(o.n) == xkMsg && rc.rt == "google" && !proto.HasExtension(m.(proto.Message), d.(protoreflect.ExtensionType)) {
 				// protobuf-go's own proto.GetExtension panics ("assigning invalid zero-value message") for an unset
 				// message-typed extension whose type is dynamic: a quirk of the owning runtime, not of the shim
